@@ -44,13 +44,37 @@ type command struct {
 	results []interface{}
 }
 
+// workerPanic carries a panic raised by a task on a worker goroutine back to
+// the goroutine that submitted the task, which re-raises it there: a panic on
+// a pool goroutine could not be recovered by any caller and would end the process.
+type workerPanic struct{ value interface{} }
+
+// call runs f(i), converting a panic into a workerPanic result.
+func call(f func(int) interface{}, i int) (res interface{}) {
+	defer func() {
+		if r := recover(); r != nil {
+			res = workerPanic{r}
+		}
+	}()
+	return f(i)
+}
+
+// rethrow re-raises, on the calling goroutine, a panic that a task raised on a worker.
+func rethrow(results []interface{}) {
+	for _, r := range results {
+		if p, ok := r.(workerPanic); ok {
+			panic(p.value)
+		}
+	}
+}
+
 // workerSearch is the subroutine called when doing a search command.
 //
 // We need to keep searching for successful queries of f while *ctr > 0.
 // When we find a successful result, we decrement *ctr.
 func workerSearch(results []interface{}, ctrChanged chan<- struct{}, f func(int) interface{}, ctr *int64) {
 	for atomic.LoadInt64(ctr) > 0 {
-		res := f(0)
+		res := call(f, 0)
 		if res == nil {
 			continue
 		}
@@ -75,7 +99,7 @@ func worker(commands <-chan command) {
 		if c.search {
 			workerSearch(c.results, c.ctrChanged, c.f, c.ctr)
 		} else {
-			c.results[c.i] = c.f(c.i)
+			c.results[c.i] = call(c.f, c.i)
 			verifYield("w.beforeCtr", c.i)
 			atomic.AddInt64(c.ctr, -1)
 			verifYield("w.afterCtr", c.i)
@@ -171,6 +195,7 @@ func (p *Pool) Search(count int, f func() interface{}) []interface{} {
 		verifYield("c.afterRecv", 0)
 	}
 	verifYield("c.return", 0)
+	rethrow(results)
 
 	return results
 }
@@ -217,6 +242,7 @@ func (p *Pool) Parallelize(count int, f func(int) interface{}) []interface{} {
 		verifYield("c.afterRecv", 0)
 	}
 	verifYield("c.return", 0)
+	rethrow(results)
 
 	return results
 }
